@@ -396,6 +396,10 @@ class CallMixin:
                     return f'{pre}_assign_range({addr(obj)}, {A(0)}, {A(1)})'
                 if m == 'assign' and len(args) == 2:
                     return f'{pre}_assign_fill({addr(obj)}, {A(0)}, {self.value_of(args[1])})'
+                if m == 'erase' and fam == 'string' and args and self.tyof(args[0]).strip_ref().kind == 'prim':
+                    # std::string::erase(pos, count = npos): throws out_of_range when pos > size()
+                    cnt = A(1) if len(args) > 1 and args[1].get('kind') != 'CXXDefaultArgExpr' else '((uint64_t)-1)'
+                    return self.maythrow_call('str_erase_pos', f'str_erase_pos({addr(obj)}, {A(0)}, {cnt})', T('prim', 'void'))
                 if m == 'erase' and len(args) == 2:
                     return f'{pre}_erase_range({addr(obj)}, {A(0)}, {A(1)})'
                 if m == 'erase' and len(args) == 1:
